@@ -78,9 +78,24 @@ def main():
         setup(off, itv)
         pos = sd.position_at(i)
         ax = sd.axis(3, start=i)
+
+        def axis_by(**kw):
+            try:
+                return [frac(a) for a in sd.axis(3, **kw)]
+            except ValueError:
+                return "ValueError"
+            except Exception as exc:
+                return type(exc).__name__
+        # the other ways to say where an axis starts: by position (on a sample, 0, the offset, one sample before the
+        # offset), by nothing at all, by both (the index wins)
+        o = fl(off)
+        variants = [["position", frac(pos), axis_by(start_position=pos)], ["position", frac(0.0), axis_by(start_position=0.0)],
+                    ["position", frac(0.0), axis_by(start_position=0)], ["position", frac(o), axis_by(start_position=o)],
+                    ["position", frac(o - fl(itv)), axis_by(start_position=o - fl(itv))], ["none", None, axis_by()],
+                    ["both", frac(pos), axis_by(start=0, start_position=pos)], ["index", None, axis_by(start=0)]]
         res.append([frac(pos), io(sd.index_of, pos, IndexMode.LessOrEqual),
                     io(sd.index_of, pos, IndexMode.GreaterOrEqual), io(sd.index_of, pos, IndexMode.Less),
-                    [frac(a) for a in ax]])
+                    [frac(a) for a in ax], variants])
     out["roundtrip"] = res
 
     # range dimensions: one array per tick vector
